@@ -261,7 +261,7 @@ class AverageLearner1D(Learner1D):
         """Return 'n' points that are expected to maximally reduce the loss."""
         # If some point is undersampled, resample it
         if len(self._undersampled_points):
-            x = next(iter(self._undersampled_points))
+            x = min(self._undersampled_points)
             points, loss_improvements = self._ask_for_more_samples(x, n)
         # If less than 2 points were sampled, sample a new one
         elif len(self.data) <= 1:
